@@ -137,6 +137,10 @@ def run_parent(args) -> int:
     os.makedirs(WORK, exist_ok=True)
     os.makedirs(os.path.join(VERIF_DIR, "evidence"), exist_ok=True)
     t0 = time.time()
+    rdir0 = os.path.join(VERIF_DIR, "replays", prop)
+    if os.path.isdir(rdir0):  # replay files belong to one run
+        for fn in os.listdir(rdir0):
+            os.remove(os.path.join(rdir0, fn))
     nshards = getattr(mod, "NSHARDS", {}).get(tier, NSHARDS) if isinstance(getattr(mod, "NSHARDS", None), dict) else NSHARDS
     timeout = getattr(mod, "TIMEOUT", {"quick": 600, "thorough": 7200})[tier]
     procs = []
